@@ -66,6 +66,29 @@ Definition analyze_trace (ms : list metric) (variant : string) (control : option
   if guard_raises pairs all_variants then None
   else Some (reads ++ flat_map (metrics_fetches ms 0 ms) (if all_variants then pairs else firstn 1 pairs)).
 
-(* Experiment.solve_power: every metric here is a PowerBaseAggregated (MAggr) or a plain PowerBase *)
-Definition solve_power_trace (ms : list metric) : list fetch :=
-  (if has_aggr ms then [FAggr (merged_spec ms) None] else []).
+(* Experiment.solve_power dispatches on the POWER classes of metrics/base.py, which are independent of the analysis
+   classes above: PowerBaseAggregated (declares aggr_cols, solved from the shared aggregates), any other PowerBase
+   (reads the data itself), or no power analysis at all (the metric is skipped). *)
+Inductive power_kind :=
+  | PwAggr (spec : aggr_spec)
+  | PwPlain
+  | PwNone.
+Definition power_metric (p : power_kind) : metric := match p with PwAggr s => MAggr s | _ => MPlain end.
+Definition power_merged_spec (ps : list power_kind) : aggr_spec := merged_spec (map power_metric ps).
+Definition has_power_aggr (ps : list power_kind) : bool := Nat.ltb 0 (spec_len (power_merged_spec ps)).
+(* calls metric.solve_power(data) of the non-aggregated power metrics, in metric order *)
+Fixpoint power_calls (i : nat) (ps : list power_kind) : list fetch :=
+  match ps with
+  | [] => []
+  | PwPlain :: t => FPlain i (0, 0)%Z :: power_calls (S i) t
+  | _ :: t => power_calls (S i) t
+  end.
+Definition solve_power_trace (ps : list power_kind) : list fetch :=
+  (if has_power_aggr ps then [FAggr (power_merged_spec ps) None] else []) ++ power_calls 0 ps.
+(* indices of the metrics that get an entry in the power result, in order *)
+Fixpoint power_entries (i : nat) (ps : list power_kind) : list nat :=
+  match ps with
+  | [] => []
+  | PwNone :: t => power_entries (S i) t
+  | _ :: t => i :: power_entries (S i) t
+  end.
